@@ -27,7 +27,7 @@ Mirror: for every handle the static definition path, the chain of ItemSpace keys
   (a lower bound: the library may discard more, e.g. every ItemSpace on a namespace change).
 
 Not generated (known findings of other properties / of C13):
-  D22  del Src while a value was computed from S.k through the attribute path  (counted: avoided_D22)
+  (D22, del Src while a value was computed from S.k through the attribute path, is repaired in /repo: generated, counted del_Src_after_attr_read)
   D38  (C07) a new parameter formula of a *child* space does not reach live dynamic copies: only P's formula is changed
 """
 import copy
@@ -330,9 +330,9 @@ class Gen:
             if nm == "Src":
                 if any("attr:k" in h["reads"] for h in self.H.values() if not h.get("gone")) or \
                         any("k" in l["pf"] for l in self.levels):
-                    self.avoided["avoided_D22"] = self.avoided.get("avoided_D22", 0) + 1
-                    return False
-                dead = self.by_token(["cell:a", "cell:b"])
+                    # D22 is repaired in /repo: values read from S.k through the attribute path go with Src
+                    self.avoided["del_Src_after_attr_read"] = self.avoided.get("del_Src_after_attr_read", 0) + 1
+                dead = self.by_token(["cell:a", "cell:b", "attr:k"])
                 dead += self.kill(lambda h: h["spath"][:1] == ("Src",))
                 self.src_cells.clear()
                 self.has_k = False
